@@ -27,6 +27,10 @@ import time
 VERIF = os.path.dirname(os.path.abspath(__file__))
 REPO = os.environ.get("VERIF_REPO", "/repo")
 WORK = os.environ.get("VERIF_WORK", "/var/tmp/verif-work")
+# sensitivity experiments run against a scratch copy of the repository and write their evidence/replays elsewhere
+OUT = os.environ.get("VERIF_RESULTS", VERIF)
+# harness, hooks and shims are taken from here (a frozen copy during sensitivity experiments that run beside development)
+PARTS = os.environ.get("VERIF_PARTS", VERIF)
 NCPU = os.cpu_count() or 4
 
 GOENV = {
@@ -169,11 +173,12 @@ check("C05", "GC never removes retained or recent content", "exploration",
       "rapid state machine building object graphs with aliasing/nesting/referrers + ageing + collections at any step under every policy; oracle = must-keep closure computed on the model from the statement, pull walk of every tag",
       "Randomised model-based search over object graphs (shared and aliased digests, nested indexes, foreign-typed children, referrers of referrers, dangling/blob-only/circular subjects), "
       "push/delete histories, ageing, and collections per repository, store-wide and through restart under all 16 policy combinations x grace {off, 1 h} x {mem, dir}; before each collection "
-      "the must-keep set is computed from the statement alone (settings never add to it), after it every member must be served byte-identically, every tag must resolve and pull completely.",
+      "the must-keep set is computed from the statement alone (settings never add to it), after it every member must be served byte-identically, every tag must resolve and pull completely. A second generator runs 2-5 clients pushing complete images "
+      "(shared layers, three upload protocols) while a 1 ms ticker and a collection loop run with every policy on and a 1 h grace: no upload may be lost between its blobs and its manifest.",
       "Trusted: the closure in c05_test.go (two documented weakenings from Appendix B of DESIGN.md; root status of child manifests is not asserted while finding C05/orphaned-child is open - counted "
       "in evidence); ageing through the add-only hook VerifAgeBlobs (Chtimes / in-memory metadata).",
       "DESIGN.md §3 C05",
-      [R("^TestC05$", 4000, 120000, steps=35)])
+      [R("^TestC05$", 4000, 120000, steps=35), R("^TestC05Concurrent$", 800, 20000, shards=(4, 16))])
 
 check("C06", "collection removes exactly the garbage, converges, is not starved", "exploration",
       "E2 object graphs + multi-repository mixes (ghost/empty/removed/corrupt) aged beyond grace; oracle = reachability over the post-pass index (no garbage, no dangling entry), policy rules where unambiguous, second pass is a no-op, per healthy repository",
@@ -210,11 +215,14 @@ check("C11", "concurrent requests never lose or tear updates", "exploration",
       "rapid generator of small concurrent programs run on real goroutines (16 cores); oracle A = quiescent invariants over the recorded history, oracle B = porcupine linearizability check against the sequential tag/manifest/referrers model",
       "Sampling of schedules: thousands of generated programs (2-5 clients x 1-5 operations on one repository: same-tag pushes, artifacts to the same subjects, deletes, listings, referrers reads, uploads, optional "
       "background collections) are released together; every call is recorded with call/return times. Lost or torn updates show either at quiescence (acknowledged, never-deleted manifest or referrer missing; tag "
-      "resolving to a digest nobody pushed under it) or as a history that no sequential order consistent with real time explains (porcupine).",
+      "resolving to a digest nobody pushed under it) or as a history that no sequential order consistent with real time explains (porcupine). A second generator lets 2-4 clients use one upload "
+      "session at once (PATCH at remembered or freshly queried offsets, bodies arriving in small reads, status queries): acknowledged chunks must tile the upload, status answers must lie within the bytes acknowledged/started, "
+      "and completing with the digest of the concatenation must succeed and read back exactly.",
       "Trusted: porcupine v1.3.0; monotonic clock readings around each call; the Go scheduler decides the interleavings (the harness owns neither the scheduler nor the points inside a handler), so absence is not "
-      "established. A second 202 for a delete that raced past the same existence check is accepted; while finding C11/artifact-put-not-atomic is open an artifact push is modelled as two atomic steps.",
+      "established. A second 202 for a delete that raced past the same existence check is accepted; while finding C11/artifact-put-not-atomic is open an artifact push is modelled as two atomic steps, "
+      "and while C11/session-patch-not-atomic is open the harness admits one PATCH per session at a time.",
       "DESIGN.md §3 C11",
-      [R("^TestC11$", 2400, 60000, shards=(8, 16))])
+      [R("^TestC11$", 2400, 60000, shards=(8, 16)), R("^TestC11Upload$", 4000, 80000, shards=(8, 16))])
 
 check("C13", "concurrent use of one server is free of data races", "exploration",
       "rapid generator of concurrent programs with background ticker/timers on a -race build; oracle = Go race detector (reports parsed into signatures by the driver)",
@@ -304,7 +312,7 @@ OS_READONLY_OK = {"IsNotExist", "IsExist", "ErrNotExist", "FileMode", "FileInfo"
 
 def rewrite_vfs(src):
     """E3: route filesystem calls of internal/store through the vfs shim."""
-    shutil.copytree(os.path.join(VERIF, "shims", "vfs"), os.path.join(src, "internal", "vfs"), dirs_exist_ok=True)
+    shutil.copytree(os.path.join(PARTS, "shims", "vfs"), os.path.join(src, "internal", "vfs"), dirs_exist_ok=True)
     for fn in ("dir.go", "mem.go"):
         p = os.path.join(src, "internal", "store", fn)
         s = open(p).read()
@@ -322,7 +330,7 @@ def rewrite_vfs(src):
 
 def rewrite_vsync(src):
     """E4: recording replacements for sync.Mutex / sync.WaitGroup."""
-    shutil.copytree(os.path.join(VERIF, "shims", "vsync"), os.path.join(src, "internal", "vsync"), dirs_exist_ok=True)
+    shutil.copytree(os.path.join(PARTS, "shims", "vsync"), os.path.join(src, "internal", "vsync"), dirs_exist_ok=True)
     for rel in ("olareg.go", "internal/store/dir.go", "internal/store/mem.go", "internal/cache/cache.go"):
         p = os.path.join(src, rel)
         s = open(p).read()
@@ -349,13 +357,13 @@ def prepare(work, variant):
     if r.returncode != 0:
         raise Infra("rsync of %s failed" % REPO)
     # hooks (guard: build tag verif), add-only files
-    shutil.copy(os.path.join(VERIF, "inject", "verif_hooks.go"), os.path.join(src, "verif_hooks.go"))
-    shutil.copy(os.path.join(VERIF, "inject", "store_verif_hooks.go"), os.path.join(src, "internal", "store", "verif_hooks.go"))
+    shutil.copy(os.path.join(PARTS, "inject", "verif_hooks.go"), os.path.join(src, "verif_hooks.go"))
+    shutil.copy(os.path.join(PARTS, "inject", "store_verif_hooks.go"), os.path.join(src, "internal", "store", "verif_hooks.go"))
     if variant == "vfs":
         rewrite_vfs(src)
     if variant == "vsync":
         rewrite_vsync(src)
-    shutil.copytree(os.path.join(VERIF, "harness"), har)
+    shutil.copytree(os.path.join(PARTS, "harness"), har)
     shutil.copy(os.path.join(REPO, "go.sum"), os.path.join(har, "go.sum"))
     tags = "verif"
     if variant == "vfs":
@@ -536,7 +544,7 @@ def rapid_failfile(cwd):
 
 
 def save_replay(pid, rec, tier, seed):
-    d = os.path.join(VERIF, "replays", pid)
+    d = os.path.join(OUT, "replays", pid)
     os.makedirs(d, exist_ok=True)
     r = rec.pop("_shard")
     ff = rapid_failfile(r["cwd"])
@@ -558,8 +566,8 @@ def write_evidence(pid, tier, seed, level, merged, wall, violations, assumptions
     if notes:
         cov["notes"] = notes
     ev = dict(property_id=pid, tier=tier, seed=seed, level=level, coverage=cov, assumptions=assumptions, wall_s=round(wall, 1), violations=violations)
-    os.makedirs(os.path.join(VERIF, "evidence"), exist_ok=True)
-    json.dump(ev, open(os.path.join(VERIF, "evidence", pid + ".json"), "w"), indent=1)
+    os.makedirs(os.path.join(OUT, "evidence"), exist_ok=True)
+    json.dump(ev, open(os.path.join(OUT, "evidence", pid + ".json"), "w"), indent=1)
 
 
 def cmd_check(pid, tier):
@@ -575,7 +583,7 @@ def cmd_check(pid, tier):
     open_sigs = [k["signature"] for k in known.get("open", [])]
     t0 = time.time()
     work = os.path.join(WORK, "%s-%s" % (pid, tier))
-    ev_path = os.path.join(VERIF, "evidence", pid + ".json")
+    ev_path = os.path.join(OUT, "evidence", pid + ".json")
     if os.path.exists(ev_path):
         os.remove(ev_path)
     try:
@@ -798,10 +806,19 @@ def cmd_manifest():
 
 
 def cmd_seeded(dirs):
-    """Sensitivity: apply each seeded patch to /repo, run the property's quick check, expect exit 1, revert."""
+    """Sensitivity: apply each seeded patch, run the property's quick check, expect exit 1, revert.
+    Default: the patch is applied to /repo itself (git apply ... git checkout -- .), nothing else may run meanwhile.
+    With VERIF_SEEDED_SCRATCH=<dir>: a detached worktree of /repo HEAD is created at <dir>/repo, patched there, and the
+    checks run against it with their work directory, evidence and replays under <dir> (other checks can run meanwhile)."""
     if not dirs:
         dirs = sorted(glob.glob(os.path.join(VERIF, "seeded", "*")))
+    scratch = os.environ.get("VERIF_SEEDED_SCRATCH")
     rows = []
+    if scratch:
+        frozen = os.path.join(scratch, "parts")
+        shutil.rmtree(frozen, ignore_errors=True)
+        for part in ("harness", "inject", "shims"):
+            shutil.copytree(os.path.join(VERIF, part), os.path.join(frozen, part))
     for d in dirs:
         d = os.path.abspath(d)
         meta_p = os.path.join(d, "meta.json")
@@ -809,13 +826,26 @@ def cmd_seeded(dirs):
             continue
         meta = json.load(open(meta_p))
         patch = os.path.join(d, "patch.diff")
-        st = sh(["git", "-C", REPO, "status", "--porcelain"], stdout=subprocess.PIPE, text=True).stdout.strip()
-        if st:
-            log("refusing: /repo is dirty")
-            return 2
-        r = sh(["git", "-C", REPO, "apply", patch])
+        env = dict(os.environ)
+        if scratch:
+            target = os.path.join(scratch, "repo")
+            sh(["git", "-C", REPO, "worktree", "remove", "--force", target], stderr=subprocess.DEVNULL)
+            if sh(["git", "-C", REPO, "worktree", "add", "-q", "--detach", target, "HEAD"]).returncode != 0:
+                return 2
+            out = os.path.join(scratch, "out")
+            shutil.rmtree(out, ignore_errors=True)
+            env.update(VERIF_REPO=target, VERIF_WORK=os.path.join(scratch, "work"), VERIF_RESULTS=out, VERIF_PARTS=frozen)
+        else:
+            target, out = REPO, VERIF
+            st = sh(["git", "-C", REPO, "status", "--porcelain"], stdout=subprocess.PIPE, text=True).stdout.strip()
+            if st:
+                log("refusing: /repo is dirty")
+                return 2
+        r = sh(["git", "-C", target, "apply", patch])
         if r.returncode != 0:
             rows.append((os.path.basename(d), "patch does not apply"))
+            if scratch:
+                sh(["git", "-C", REPO, "worktree", "remove", "--force", target])
             continue
         try:
             checks = meta.get("check_with", [meta["property"]])
@@ -823,26 +853,32 @@ def cmd_seeded(dirs):
                 checks = os.environ["VERIF_SEEDED_CHECKS"].split(",")
             for pid in checks:
                 t0 = time.time()
-                env = dict(os.environ)
                 r = sh([sys.executable, os.path.join(VERIF, "verif.py"), "check", pid, meta.get("tier", "quick")], stdout=subprocess.PIPE, stderr=subprocess.PIPE, text=True, env=env)
                 viol = [l for l in r.stdout.splitlines() if l.startswith("VIOLATION")]
                 # replays produced against a patched tree belong to the seeded change, not to replays/
                 os.makedirs(os.path.join(d, "caught"), exist_ok=True)
+                names = []
                 for l in viol:
                     rp = l.split("replay=", 1)[-1].strip()
-                    if os.path.exists(rp) and rp.startswith(os.path.join(VERIF, "replays")):
+                    names.append(os.path.basename(rp))
+                    if os.path.exists(rp) and rp.startswith(os.path.join(out, "replays")):
                         shutil.move(rp, os.path.join(d, "caught", os.path.basename(rp)))
                 res_p = os.path.join(d, "result.json")
                 res = json.load(open(res_p)) if os.path.exists(res_p) else {}
-                res[pid] = {"tier": meta.get("tier", "quick"), "exit": r.returncode, "violations": [l.split("replay=")[0].strip() + " replay=seeded/%s/caught/%s" % (os.path.basename(d), os.path.basename(l.split("replay=", 1)[-1].strip())) for l in viol]}
+                res[pid] = {"tier": meta.get("tier", "quick"), "exit": r.returncode,
+                            "violations": ["VIOLATION property=%s replay=seeded/%s/caught/%s" % (pid, os.path.basename(d), n) for n in names]}
                 json.dump(res, open(res_p, "w"), indent=1, sort_keys=True)
                 rows.append((os.path.basename(d), pid, "rc=%d" % r.returncode, "%.0fs" % (time.time() - t0), viol[:1]))
+                print(*rows[-1], flush=True)
         finally:
-            sh(["git", "-C", REPO, "checkout", "--", "."])
-            # evidence files were rewritten from a mutated tree: restore the committed ones
-            sh(["git", "-C", VERIF, "checkout", "--", "evidence"], stderr=subprocess.DEVNULL)
-    for row in rows:
-        print(*row)
+            if scratch:
+                sh(["git", "-C", REPO, "worktree", "remove", "--force", target])
+                shutil.rmtree(os.path.join(scratch, "work"), ignore_errors=True)
+                shutil.rmtree(out, ignore_errors=True)
+            else:
+                sh(["git", "-C", REPO, "checkout", "--", "."])
+                # evidence files were rewritten from a mutated tree: restore the committed ones
+                sh(["git", "-C", VERIF, "checkout", "--", "evidence"], stderr=subprocess.DEVNULL)
     return 0
 
 
